@@ -71,6 +71,33 @@ fn main() {
     let thorough = a[3] == "thorough";
     let out = std::io::stdout();
     let mut out = std::io::BufWriter::new(out.lock());
+    #[cfg(any(feature = "libm", feature = "mm", feature = "std"))]
+    if a[3] == "anglewrap" || a[3] == "anglewrap-thorough" {
+        // Angle::wrap under this build's float backend, in the record format of TV_Angle (C18)
+        use re::math::angle::degs;
+        let mut rng = Rng(seed ^ 0xA2617);
+        let sc = |x: f32| -> i64 { let v = (x as f64 * 1024.0).round(); if v.is_finite() { v.clamp(-2e9, 2e9) as i64 } else { 2_000_000_000 } };
+        let ivs = [(0.0f32, 360.0f32), (-180.0, 180.0), (0.0, 90.0), (-90.0, 270.0), (100.0, 101.0), (-720.0, -360.0), (0.0, 57.29578), (30.0, 390.0)];
+        let n = if a[3] == "anglewrap" { 20_000 } else { 300_000 };
+        for i in 0..n {
+            let (lo, hi) = ivs[i % ivs.len()];
+            let p = hi - lo;
+            let k = ((rng.unit() - 0.5) * 40.0).round() as f32;
+            let x = match i % 5 {
+                0 => lo + k * p,                                                  // exact multiples of the period
+                1 if lo + k * p != 0.0 => f32::from_bits((lo + k * p).to_bits() - 1), // one ulp towards zero
+                2 if lo + k * p != 0.0 => f32::from_bits((lo + k * p).to_bits() + 1), // one ulp away from zero
+                3 => lo + ((rng.unit() - 0.5) * 40.0) as f32 * p,
+                _ => lo - rng.unit() as f32 * p * 2.0,
+            };
+            let r = guard(|| degs(x).wrap(degs(lo), degs(hi)).to_degs());
+            let (pn, rv) = match r { Some(v) => (0, v), None => (1, lo) };
+            writeln!(out, "{}", json!({"k": format!("w-{be}-{i}"), "op": "wrap", "be": be, "a": sc(x), "lo": sc(lo), "hi": sc(hi), "r": sc(rv),
+                "below": (rv < lo) as u8, "above": (rv > hi) as u8, "panic": pn})).unwrap();
+        }
+        out.flush().unwrap();
+        return;
+    }
     let mut rng = Rng(seed ^ 0xF10A7);
 
     // ---- structured inputs for the exact functions: every sign x exponent -20..40 x mantissa patterns
